@@ -134,6 +134,8 @@ def header_source(d):
         pe = ir.peel(e)
         if pe[0] == 'discr':
             x = ir.peel(pe[1])
+            if x[0] == 'call' and x[1] == "<std::option::Option as std::ops::Try>::branch" and x[2]:
+                x = ir.peel(x[2][0])        # `H.get(0..8)?`
             if x[0] == 'call' and x[1].endswith("::get") and len(x[2]) == 2:
                 rng = ir.peel(x[2][1])
                 if rng[0] == 'agg' and rng[2].endswith("Range") and cv(dict(rng[3]).get('start')) == 0:
